@@ -137,4 +137,79 @@ theorem fromI128_value (v : Int) (hv : -(2^127 : Int) ≤ v ∧ v < 2^127) :
   split <;> omega
 
 
+theorem toI128_spec (a : I256) (ha : a.WF) :
+    a.toI128 = if -(2^127 : Int) ≤ a.value ∧ a.value < 2^127 then some a.value else none := by
+  obtain ⟨alo, ahi⟩ := a
+  generalize hv : I256.value ⟨alo, ahi⟩ = v
+  have hv' : v = ahi * 2 ^ 128 + (alo : Int) := by rw [← hv]; rfl
+  simp only [I256.WF] at ha
+  simp only [I256.toI128]
+  generalize hw : asI128 alo = w
+  have hw' : (alo < 2 ^ 127 → w = alo) ∧ (¬ alo < 2 ^ 127 → w = (alo : Int) - 2 ^ 128) := by
+    rw [← hw, asI128_eq]; simp only [wrapI128]; omega
+  by_cases h3 : ahi = -1
+  · subst h3
+    by_cases hlt : alo < 2 ^ 127
+    · have hwn : ¬ w < 0 := by omega
+      have hr : ¬ (-(2^127 : Int) ≤ v ∧ v < 2^127) := by omega
+      rw [if_neg hr]; simp [hwn]
+    · have hwn : w < 0 := by omega
+      have hr : (-(2^127 : Int) ≤ v ∧ v < 2^127) := by omega
+      have he : w = v := by omega
+      rw [if_pos hr, ← he]; simp [hwn]
+  · by_cases h4 : ahi = 0
+    · subst h4
+      by_cases hlt : alo < 2 ^ 127
+      · have hwn : ¬ w < 0 := by omega
+        have hr : (-(2^127 : Int) ≤ v ∧ v < 2^127) := by omega
+        have he : w = v := by omega
+        rw [if_pos hr, ← he]; simp [hwn]
+      · have hwn : w < 0 := by omega
+        have hr : ¬ (-(2^127 : Int) ≤ v ∧ v < 2^127) := by omega
+        rw [if_neg hr]; simp [hwn]
+    · have hr : ¬ (-(2^127 : Int) ≤ v ∧ v < 2^127) := by omega
+      rw [if_neg hr]; simp [h3, h4]
+
+theorem wrappingAbs_value (a : I256) (ha : a.WF) :
+    a.wrappingAbs.WF ∧ a.wrappingAbs.value = wrap256 (if a.value < 0 then - a.value else a.value) := by
+  obtain ⟨alo, ahi⟩ := a
+  generalize hv : I256.value ⟨alo, ahi⟩ = v
+  have hv' : v = ahi * 2 ^ 128 + (alo : Int) := by rw [← hv]; rfl
+  simp only [I256.WF] at ha
+  simp only [I256.wrappingAbs, ABS_SIGN_SHIFT, sar127 ahi ⟨ha.2.1, ha.2.2⟩, I256.fromParts]
+  by_cases hn : ahi < 0
+  · simp only [hn, ↓reduceIte]
+    have e1 : asU128 (-1) = 2 ^ 128 - 1 := by decide
+    have hA : (asU128 ahi : Int) = ahi + 2 ^ 128 := by simp only [asU128]; omega
+    have hahi : asU128 ahi < 2 ^ 128 := by omega
+    rw [e1, xor_allOnes alo ha.1, xor_allOnes _ hahi, asI128_eq]
+    have hH : wrapI128 ((2 ^ 128 - 1 - asU128 ahi : Nat) : Int) = -ahi - 1 := by
+      simp only [wrapI128]; omega
+    rw [hH]
+    have hw := wrappingSub_value ⟨2 ^ 128 - 1 - alo, -ahi - 1⟩ ⟨2 ^ 128 - 1, -1⟩
+      (by simp only [I256.WF]; omega) (by simp only [I256.WF]; omega)
+    refine ⟨hw.1, ?_⟩
+    rw [hw.2]
+    have hneg : v < 0 := by omega
+    rw [if_pos hneg]
+    have hd : I256.value ⟨2 ^ 128 - 1 - alo, -ahi - 1⟩ - I256.value ⟨2 ^ 128 - 1, -1⟩ = -v := by
+      simp only [I256.value]; omega
+    rw [hd]
+  · simp only [hn, ↓reduceIte]
+    have e0 : asU128 0 = 0 := by decide
+    have hA : (asU128 ahi : Int) = ahi := by simp only [asU128]; omega
+    rw [e0, Nat.xor_zero, Nat.xor_zero, asI128_eq]
+    have hH : wrapI128 ((asU128 ahi : Nat) : Int) = ahi := by
+      simp only [wrapI128]; omega
+    rw [hH]
+    have hw := wrappingSub_value ⟨alo, ahi⟩ ⟨0, 0⟩
+      (by simp only [I256.WF]; omega) (by simp only [I256.WF]; omega)
+    refine ⟨hw.1, ?_⟩
+    rw [hw.2]
+    have hneg : ¬ v < 0 := by omega
+    rw [if_neg hneg]
+    have hd : I256.value ⟨alo, ahi⟩ - I256.value ⟨0, 0⟩ = v := by
+      simp only [I256.value]; omega
+    rw [hd]
+
 end ArrowModel.C12
